@@ -39,6 +39,8 @@ type Family struct {
 	// document with no body codec is a read error whether or not the frame finds its call);
 	// they are sent only for a call that cannot have completed yet, else the substitute is sent
 	OnlyFresh map[string]string
+	// Relay: a PUSH frame for the relay handler /relay/go (nil: none)
+	Relay func() []byte
 	// Other: a well-formed frame whose message type is none of CALL/REPLY/PUSH (nil: the
 	// family has none)
 	Other func() []byte
@@ -150,8 +152,41 @@ type world struct {
 	armed    map[string]bool
 	mustDone int           // call that the reply just sent must complete (-1 = none)
 	dirty    bool          // a loss, malformed bytes or a Close happened: later calls may complete by themselves
+	callsMu  sync.Mutex    // calls is appended to by the relay handler too
+	relays   int32         // relay handlers that have issued their call and wait for it
 	poolHold chan struct{} // non-nil: harness goroutines occupy every free slot of the goroutine pool
 	poolWG   sync.WaitGroup
+}
+
+func (w *world) callList() []*callRec {
+	w.callsMu.Lock()
+	defer w.callsMu.Unlock()
+	return append([]*callRec{}, w.calls...)
+}
+
+func (w *world) addCall(c *callRec) {
+	w.callsMu.Lock()
+	w.calls = append(w.calls, c)
+	w.callsMu.Unlock()
+}
+
+// Relay is the push handler of the session under test: it issues a call on the session it was
+// entered on and returns only when that call has completed.
+type Relay struct{ erpc.PushCtx }
+
+var curWorld atomic.Value // *world
+
+func relayWait(cmd erpc.CallCmd) { <-cmd.Done() }
+
+func (r *Relay) Go(arg *string) *erpc.Status {
+	w := curWorld.Load().(*world)
+	c := &callRec{ch: make(chan erpc.CallCmd, 4), res: fam.NewResult()}
+	w.addCall(c)
+	cmd := r.Session().AsyncCall("/t/echo", fam.Arg, c.res, c.ch)
+	c.cmd.Store(cmd)
+	atomic.StoreInt32(&c.returned, 1)
+	relayWait(cmd)
+	return nil
 }
 
 // poolLimit: the goroutine pool of every case; far more than a case uses unless the harness fills it
@@ -161,8 +196,12 @@ func (w *world) poolFull() {
 	if w.poolHold != nil {
 		return
 	}
-	hold := make(chan struct{})
-	w.poolHold = hold
+	w.poolHold = make(chan struct{})
+	w.poolRefill()
+}
+
+func (w *world) poolRefill() {
+	hold := w.poolHold
 	for i := 0; i < 4*poolLimit; i++ {
 		w.poolWG.Add(1)
 		if !erpc.Go(func() { defer w.poolWG.Done(); <-hold }) {
@@ -185,6 +224,8 @@ func newWorld() *world {
 	w := &world{closed: make(chan struct{}), touched: map[int]bool{}, armed: map[string]bool{}, mustDone: -1}
 	erpc.SetGopool(poolLimit, 0) // a fresh pool per case
 	w.P = erpc.NewPeer(erpc.PeerConfig{}, replyPlugin{})
+	w.P.RoutePush(new(Relay))
+	curWorld.Store(w)
 	var pf []erpc.ProtoFunc
 	if fam.Proto != nil {
 		pf = []erpc.ProtoFunc{fam.Proto}
@@ -259,7 +300,7 @@ func (w *world) closerClassIn(d []string) string {
 func (w *world) sample(d []string) string {
 	var cs []string
 	rc := w.readerClassIn(d)
-	for _, c := range w.calls {
+	for _, c := range w.callList() {
 		done, cls := "pending", "none"
 		if v := c.cmd.Load(); v != nil {
 			cmd := v.(erpc.CallCmd)
@@ -281,6 +322,12 @@ func (w *world) sample(d []string) string {
 			// calls it has cancelled before blocking depends on the table's iteration order
 			cs = append(cs, VL(VS("flux")))
 			continue
+		}
+		if w.lost && (cls == "connclosed" || cls == "writefailed") {
+			// once the connection is gone, a caller released from a gate races with the read
+			// loop: it fails with write-failed if it gets to its write before the loop has
+			// noticed the loss, with connection-closed after
+			cls = "connerr"
 		}
 		cs = append(cs, VL(VS(done), VN(int64(len(c.ch))), VS(cls)))
 	}
@@ -313,6 +360,20 @@ func countOnStack(d []string, sub string) int {
 	return n
 }
 
+// relayInCall: relay handlers parked inside their AsyncCall at one of the caller gates
+func relayInCall(d []string, w *world) int {
+	n := 0
+	for _, g := range d {
+		if i := strings.Index(g, "created by"); i >= 0 {
+			g = g[:i]
+		}
+		if strings.Contains(g, "c02eng.(*Relay).Go") && strings.Contains(g, "verifGate") {
+			n++
+		}
+	}
+	return n
+}
+
 func (w *world) settle() (string, bool) {
 	var s1 string
 	ok := WaitUntil(settleTimeout, func() bool {
@@ -333,7 +394,7 @@ func (w *world) settle() (string, bool) {
 		}
 		// callers: every AsyncCall has returned or is parked at write.done
 		notReturned := 0
-		for _, c := range w.calls {
+		for _, c := range w.callList() {
 			if atomic.LoadInt32(&c.returned) == 0 {
 				notReturned++
 			}
@@ -342,7 +403,9 @@ func (w *world) settle() (string, bool) {
 			return false
 		}
 		// reply handlers: none running except those parked at reply.predone
-		if countOnStack(d, "handlerCtx).handle") != w.g.Parked("reply.predone", w.sess) {
+		// (a relay handler waiting for its own call is quiet; one that has been entered but has not
+		// got as far as a parked or returned AsyncCall is not)
+		if countOnStack(d, "handlerCtx).handle")-countOnStack(d, "c02eng.relayWait")-relayInCall(d, w) != w.g.Parked("reply.predone", w.sess) {
 			return false
 		}
 		s1 = w.sample(d)
@@ -416,10 +479,13 @@ func runCase(cfg *RunCfg, st *Stats, idx int, script []string) (string, string) 
 	for _, ev := range script {
 		f := strings.Split(ev, ":")
 		var in string
+		if w.poolHold != nil {
+			w.poolRefill() // slots given back by library goroutines that have finished since
+		}
 		switch f[0] {
 		case "issue", "issuecut":
 			c := &callRec{ch: make(chan erpc.CallCmd, 4), res: fam.NewResult()}
-			w.calls = append(w.calls, c)
+			w.addCall(c)
 			if f[0] == "issuecut" {
 				var k int
 				fmt.Sscanf(f[1], "%d", &k)
@@ -488,12 +554,28 @@ func runCase(cfg *RunCfg, st *Stats, idx int, script []string) (string, string) 
 			}
 			in = VL(VS("bad"))
 		case "other":
+			if w.readerClass() == "lockwait" {
+				// behind a blocked read loop the frame would only be queued, and on release its
+				// handler (Close / a new call) would race with the released callers: dropped
+				in = VL(VS("nop"))
+				break
+			}
 			w.dirty = true
 			if !w.lost {
 				w.sc.Write(fam.Other())
 				w.sent++
 			}
 			in = VL(VS("other"))
+		case "hcall":
+			if w.readerClass() == "lockwait" {
+				in = VL(VS("nop"))
+				break
+			}
+			if !w.lost {
+				w.sc.Write(fam.Relay())
+				w.sent++
+			}
+			in = VL(VS("hcall"))
 		case "pool":
 			if f[1] == "full" {
 				w.poolFull()
@@ -625,7 +707,13 @@ func genScript(cfg *RunCfg, st *Stats) []string {
 	full := false
 	for e := 0; e < n; e++ {
 		k := r.Intn(100)
-		if x := r.Intn(100); x < 4 && fam.Other != nil {
+		if x := r.Intn(100); x >= 10 && x < 17 && fam.Relay != nil {
+			// a handler that holds an outstanding call on its own session
+			s = append(s, "hcall")
+			issued++
+			st.Count("ev:handler-issues-call-and-waits")
+			continue
+		} else if x < 4 && fam.Other != nil {
 			// a frame of an unsupported type: the session closes itself from a goroutine of its own
 			s = append(s, "other")
 			st.Count("ev:unsupported-message-type")
@@ -729,7 +817,7 @@ func Run(f *Family) {
 	cfg := ParseFlags()
 	Quiet()
 	st := NewStats("C02", cfg)
-	st.Rule = "family " + fam.Name + ": histories of 3..13 events over {issue, issue with the request cut at byte offset k, reply of class ok/remote-status/undecodable(codec set)/undecodable(codec 0)/hook-refused/decode-panic, duplicate reply, unknown seq, malformed bytes, connection lost, reply stream cut at byte offset k, local Close, a frame of an unsupported message type, the goroutine pool used up / free again, gates parking callers inside AsyncCall before the write (call.stored) and after it (write.done) / reply handlers before done}; every history ends with the connection lost; thorough tier adds every cut offset of one request and one reply frame; distinct by script; non-trivial = at least one call and one reply or loss event"
+	st.Rule = "family " + fam.Name + ": histories of 3..13 events over {issue, issue with the request cut at byte offset k, reply of class ok/remote-status/undecodable(codec set)/undecodable(codec 0)/hook-refused/decode-panic, duplicate reply, unknown seq, malformed bytes, connection lost, reply stream cut at byte offset k, local Close, a frame of an unsupported message type, a PUSH whose handler issues a call on its own session and waits for it, the goroutine pool used up / free again, gates parking callers inside AsyncCall before the write (call.stored) and after it (write.done) / reply handlers before done}; every history ends with the connection lost; thorough tier adds every cut offset of one request and one reply frame; distinct by script; non-trivial = at least one call and one reply or loss event"
 	cw := NewCaseWriter(cfg)
 	distinct := DistinctSet{}
 	var scripts [][]string
@@ -752,6 +840,19 @@ func Run(f *Family) {
 		[]string{"issue", "pool:full", "reply:0:@ok", "pool:free", "issue", "lost"},
 		[]string{"pool:full", "issue", "issue", "reply:1:@remote", "reply:0:@ok", "wrongseq", "pool:free", "issue", "close", "lost"},
 		[]string{"issue", "pool:full", "reply:0:@undec", "pool:free", "issue", "reply:1:@ok"})
+	if fam.Relay != nil {
+		// a handler waits for a call it made on its own session: loss / Close / reply / both
+		fixed = append(fixed,
+			[]string{"hcall", "lost"},
+			[]string{"hcall", "issue", "lost"},
+			[]string{"hcall", "close", "lost"},
+			[]string{"hcall", "reply:0:@ok", "issue", "lost"},
+			[]string{"hcall", "hcall", "reply:1:@remote", "lost"},
+			[]string{"arm:caller", "hcall", "lost", "disarm:caller"},
+			[]string{"arm:callerw", "hcall", "lost", "disarm:callerw"},
+			[]string{"hcall", "bad:0"},
+			[]string{"issue", "hcall", "close", "reply:1:@ok", "reply:0:@ok"})
+	}
 	if fam.Other != nil {
 		// unsupported message type with a call pending: then loss / Close / silence
 		fixed = append(fixed,
